@@ -42,9 +42,12 @@ var entropyCallees = map[string]string{
 	"time.Now":                   "wall clock",
 	"math/rand/v2.Uint64":        "runtime-seeded global source",
 	"math/rand/v2.Int64":         "runtime-seeded global source",
-	"math/rand.Uint64":           "runtime-seeded global source (go >= 1.20)",
 	"runtime.fastrand64":         "runtime entropy",
 }
+
+// Not accepted: the global source of math/rand (rand.Uint64, rand.Int63, …). It is runtime-seeded by default, but any
+// rand.Seed(k) in the user's test code (common in tests) or GODEBUG=randautoseed=0 makes it a fixed sequence: every
+// Check then explores the same test cases (seed C18gB). math/rand/v2's global source cannot be reseeded.
 
 func ruleC18R1(r *Run) {
 	p := r.P
@@ -261,6 +264,10 @@ func ruleC18R3(r *Run) {
 		}
 	}
 	dbs := p.callsTo(fn, "invoke:bitStream.drawBits")
+	// (several draw sites are one choice of width if they all draw the same value)
+	for len(dbs) > 1 && p.resolve(dbs[len(dbs)-1].Arg(0)) == p.resolve(dbs[0].Arg(0)) {
+		dbs = dbs[:len(dbs)-1]
+	}
 	if Lval == nil || len(dbs) != 1 {
 		r.Undecided("genUintNBiased#anchors", fn.Pos(), "anchor unresolved: bits.Len64(max) / the single drawBits call of genUintNBiased")
 		return
@@ -599,6 +606,11 @@ func ruleC18R3(r *Run) {
 			}
 		}
 	}
+	for _, ret := range returnsOf(fn) {
+		if p.expr(p.res(ret, 0)) == "$max" && holds(p.facts(ret), p.expr(dbs[0].Arg(0)), ">", "64") {
+			okForce = true // a return of its own for the saturated draw
+		}
+	}
 	r.Check("genUintNBiased#forced-max-value", fn.Pos(), okForce, "a width above 64 yields exactly max", "the forced path (width > 64) no longer yields max")
 	// sign split of mixed ranges
 	if gi := r.MustFn("genIntRange"); gi != nil {
@@ -818,6 +830,24 @@ func ruleC18R2(r *Run) {
 	}
 	total1, total2 := int64(0), int64(0)
 	okFold := true
+	// a counter of its own for the iterations (0 on entry, +1 on every way round the loop) is 1 after one test case
+	iterCounter := func(ph *ssa.Phi) bool {
+		if ph.Block() != v.loop.Header {
+			return false
+		}
+		if c, ok := p.evalAtEntry(ph, 0); !ok || c != 0 {
+			return false
+		}
+		for i, e := range ph.Edges {
+			if !v.loop.Header.Dominates(v.loop.Header.Preds[i]) {
+				continue
+			}
+			if !isIncrementOf(p, p.resolve(e), ph) {
+				return false
+			}
+		}
+		return true
+	}
 	for _, a := range addends {
 		x, ok1 := p.evalWithPhis(a, func(ph *ssa.Phi) (int64, bool) {
 			switch ph {
@@ -826,6 +856,9 @@ func ruleC18R2(r *Run) {
 			case invPhi:
 				return 0, true
 			}
+			if iterCounter(ph) {
+				return 1, true
+			}
 			return 0, false
 		}, 0)
 		y, ok2 := p.evalWithPhis(a, func(ph *ssa.Phi) (int64, bool) {
@@ -833,6 +866,9 @@ func ruleC18R2(r *Run) {
 			case validPhi:
 				return 0, true
 			case invPhi:
+				return 1, true
+			}
+			if iterCounter(ph) {
 				return 1, true
 			}
 			return 0, false
